@@ -50,6 +50,19 @@ def healthy(seed, quick):
                     S.append(dict(id='H%d-%s-%s' % (k, kind, 'crc' if crc else 'nocrc'), kind=kind, crc=crc, csd=csd, timing=t, seed=seed * 1000 + k, ops=ops))
     return S
 
+def weird_csd(seed, quick):
+    """registers a card may answer with although they make no sense as a capacity (field combinations the formula cannot take,
+    a version 2.0 size beyond 2^32 - 1 blocks): the calls must return - a value or an error - and the card stays usable"""
+    S = []
+    regs = [('sd1', dict(ver=0, c_size=1000, mult=3, bl=1, weird=True)), ('sd1', dict(ver=0, c_size=4095, mult=0, bl=0, weird=True)),
+            ('sd2', dict(ver=0, c_size=4095, mult=7, bl=15, weird=True)), ('sd2', dict(ver=0, c_size=0, mult=0, bl=6, weird=True)),
+            ('sdhc', dict(ver=1, c_size=4194303, weird=True)), ('sdhc', dict(ver=1, c_size=4194302, weird=True)), ('sdhc', dict(ver=1, c_size=2097152, weird=True))]
+    for k, (kind, csd) in enumerate(regs):
+        for crc in (True, False):
+            ops = [O('card_type'), O('num_blocks'), O('num_bytes'), O('read', blk=1, n=1), O('write', blk=2, n=1), O('read', blk=2, n=1), O('num_blocks')]
+            S.append(dict(id='W%d-%s-%s' % (k, kind, 'crc' if crc else 'nocrc'), kind=kind, crc=crc, csd=csd, timing=dict(resp=1, tok=2, busy=3, acmd41=1), seed=seed + k, ops=ops))
+    return S
+
 def follow_up():
     return [O('read', blk=9, n=1), O('write', blk=9, n=1), O('read', blk=9, n=2), O('mark_uninit'), O('read', blk=9, n=1), O('num_blocks')]
 
